@@ -103,3 +103,71 @@ lemma("sum_succ",
 exact int_sum_Ico_succ F h
 """)
 SUM_AXIOM_LEMMAS = ["sum_ext", "sum_empty", "sum_succ"]
+
+
+# ---- Redfield tensor: trace and Hermiticity from the cell-wise assembly formula ------------------------------------
+REL_TYPES = {"N": "int", "Nb": "int", "K": "carr3", "L": "carr3", "Ld": "carr3", "R": "carr4"}
+REL_FORM = ("forall((a, b, c, d), (range(0, N), range(0, N), range(0, N), range(0, N)), "
+            "R[a,b,c,d] == Sum(m, range(0, Nb), K[m,a,c]*Ld[m,d,b] + L[m,a,c]*K[m,b,d] "
+            "- ite(b == d, Sum(k, range(0, N), K[m,k,a]*L[m,k,c]), 0) "
+            "- ite(a == c, Sum(k, range(0, N), Ld[m,d,k]*K[m,k,b]), 0)))")
+lemma("redfield_trace", types=REL_TYPES, hyps=[("hR", REL_FORM)],
+      concl="forall((c, d), (range(0, N), range(0, N)), Sum(a, range(0, N), R[a,a,c,d]) == 0)",
+      proof="""
+intro c d hc0 hcN hd0 hdN
+have hc : c ∈ Finset.Ico (0:ℤ) N := Finset.mem_Ico.mpr ⟨hc0, hcN⟩
+have hd : d ∈ Finset.Ico (0:ℤ) N := Finset.mem_Ico.mpr ⟨hd0, hdN⟩
+have e : ∀ a ∈ Finset.Ico (0:ℤ) N, R a a c d = ∑ m ∈ Finset.Ico (0:ℤ) Nb, (K m a c * Ld m d a + L m a c * K m a d
+      - (if a = d then ∑ k ∈ Finset.Ico (0:ℤ) N, K m k a * L m k c else 0)
+      - (if a = c then ∑ k ∈ Finset.Ico (0:ℤ) N, Ld m d k * K m k a else 0)) := by
+  intro a ha
+  have ha' := Finset.mem_Ico.mp ha
+  exact hR a a c d ha'.1 ha'.2 ha'.1 ha'.2 hc0 hcN hd0 hdN
+rw [Finset.sum_congr rfl e, Finset.sum_comm]
+apply Finset.sum_eq_zero
+intro m _
+simp only [Finset.sum_sub_distrib, Finset.sum_add_distrib]
+rw [Finset.sum_ite_eq' (Finset.Ico (0:ℤ) N) d, Finset.sum_ite_eq' (Finset.Ico (0:ℤ) N) c]
+simp only [hc, hd, if_true]
+have e1 : ∑ a ∈ Finset.Ico (0:ℤ) N, K m a c * Ld m d a = ∑ k ∈ Finset.Ico (0:ℤ) N, Ld m d k * K m k c := by
+  apply Finset.sum_congr rfl; intros; ring
+have e2 : ∑ a ∈ Finset.Ico (0:ℤ) N, L m a c * K m a d = ∑ k ∈ Finset.Ico (0:ℤ) N, K m k d * L m k c := by
+  apply Finset.sum_congr rfl; intros; ring
+rw [e1, e2]; ring
+""")
+lemma("redfield_herm", types=REL_TYPES,
+      hyps=[("hR", REL_FORM),
+            ("hK", "forall((m, i, j), (range(0, Nb), range(0, N), range(0, N)), conj(K[m,i,j]) == K[m,i,j])"),
+            ("hLd", "forall((m, i, j), (range(0, Nb), range(0, N), range(0, N)), Ld[m,i,j] == conj(L[m,j,i]))")],
+      concl="forall((a, b, c, d), (range(0, N), range(0, N), range(0, N), range(0, N)), conj(R[a,b,c,d]) == R[b,a,d,c])",
+      proof="""
+intro a b c d ha0 haN hb0 hbN hc0 hcN hd0 hdN
+rw [hR a b c d ha0 haN hb0 hbN hc0 hcN hd0 hdN, hR b a d c hb0 hbN ha0 haN hd0 hdN hc0 hcN, map_sum]
+apply Finset.sum_congr rfl
+intro m hm
+have hm' := Finset.mem_Ico.mp hm
+have cL : ∀ i j : ℤ, 0 ≤ i → i < N → 0 ≤ j → j < N → (starRingEnd ℂ) (L m i j) = Ld m j i := by
+  intro i j hi0 hiN hj0 hjN
+  rw [hLd m j i hm'.1 hm'.2 hj0 hjN hi0 hiN]
+have cLd : ∀ i j : ℤ, 0 ≤ i → i < N → 0 ≤ j → j < N → (starRingEnd ℂ) (Ld m i j) = L m j i := by
+  intro i j hi0 hiN hj0 hjN
+  rw [hLd m i j hm'.1 hm'.2 hi0 hiN hj0 hjN, Complex.conj_conj]
+have cK : ∀ i j : ℤ, 0 ≤ i → i < N → 0 ≤ j → j < N → (starRingEnd ℂ) (K m i j) = K m i j :=
+  fun i j hi0 hiN hj0 hjN => hK m i j hm'.1 hm'.2 hi0 hiN hj0 hjN
+simp only [map_sub, map_add, map_mul, apply_ite (starRingEnd ℂ), map_sum, map_zero]
+rw [cK a c ha0 haN hc0 hcN, cLd d b hd0 hdN hb0 hbN, cL a c ha0 haN hc0 hcN, cK b d hb0 hbN hd0 hdN]
+have s1 : ∑ k ∈ Finset.Ico (0:ℤ) N, (starRingEnd ℂ) (K m k a) * (starRingEnd ℂ) (L m k c)
+        = ∑ k ∈ Finset.Ico (0:ℤ) N, Ld m c k * K m k a := by
+  apply Finset.sum_congr rfl
+  intro k hk
+  have hk' := Finset.mem_Ico.mp hk
+  rw [cK k a hk'.1 hk'.2 ha0 haN, cL k c hk'.1 hk'.2 hc0 hcN]; ring
+have s2 : ∑ k ∈ Finset.Ico (0:ℤ) N, (starRingEnd ℂ) (Ld m d k) * (starRingEnd ℂ) (K m k b)
+        = ∑ k ∈ Finset.Ico (0:ℤ) N, K m k b * L m k d := by
+  apply Finset.sum_congr rfl
+  intro k hk
+  have hk' := Finset.mem_Ico.mp hk
+  rw [cK k b hk'.1 hk'.2 hb0 hbN, cLd d k hd0 hdN hk'.1 hk'.2]; ring
+rw [s1, s2]
+by_cases h1 : b = d <;> by_cases h2 : a = c <;> simp [h1, h2, eq_comm] <;> ring
+""")
